@@ -96,6 +96,11 @@ CHECKS = {
             "While the reader lock is held the tree must read back as at lock time through the locked reader whatever is committed and processed meanwhile (dereference, reuse of its nodes, other writes, pipeline steps); after release the final state of all columns must equal the commit-order model. One known finding (deferral re-orders the whole transaction) is excluded by construction, counted, and reproduced by a fixed regression history.",
             "The client holds the tree's read lock while committing insertions that reuse its nodes.",
             "DESIGN.md 4 C11", "pdbv"),
+    "C15": ("exploration",
+            "generated-schedule testing with the REAL worker loops: proptest-generated client scripts (incl. bursts beyond the 16 MiB queue limit, shutdown at a generated moment) x seeded shuttle schedules (random + PCT); bounded-liveness oracle on the pipeline counters + shuttle's deadlock detection + persisted-data check",
+            "The four worker loops, the wait/notify protocol and the queue-full throttles run unmodified under generated schedules; a hang is either a detected deadlock (all threads blocked) or the counters not draining within a bounded number of observer steps while nothing else is called.",
+            "Bounded liveness (cannot prove termination for unexplored schedules); scheduling controlled at lock/condvar operations; always_flush executions labelled separately.",
+            "DESIGN.md 4 C15", "pdbv-shuttle"),
 }
 
 NOT_YET = {
